@@ -35,6 +35,8 @@ class CallMixin:
                 self.assign(t.value, r, path)
                 return
             key = self.eval(t.slice, path)
+            if isinstance(cont, sv.SUnion) and any(isinstance(x, sv.SDict) for _g, x in cont.alts):
+                cont = self.expect(cont, sv.SDict, path, t)
             if isinstance(cont, sv.SDict):
                 self.assign(t.value, self.dict_set(cont, key, v), path)
                 return
@@ -329,6 +331,9 @@ class CallMixin:
                         raise Unsupported("logger argument with side effects", e)
                 return sv.NONE
             base = self.eval(f.value, path)
+            if isinstance(base, sv.SUnion) and any(isinstance(x, (sv.SList, sv.SDict, sv.SSet)) for _g, x in base.alts) \
+                    and all(isinstance(x, (sv.SList, sv.SDict, sv.SSet, sv.SNone)) for _g, x in base.alts):
+                base = self.expect(base, (sv.SList, sv.SDict, sv.SSet), path, e, what="none")
             if isinstance(base, (sv.SList, sv.SDict, sv.SSet)):
                 args = [self.eval(a, path) for a in e.args]
                 kwargs = {k.arg: self.eval(k.value, path) for k in e.keywords}
@@ -536,7 +541,15 @@ class CallMixin:
         def havoc():
             for r, f in mods:
                 if r == "arg":
-                    post_args[f] = self.havoc_like(argmap[f], f)
+                    ty = c.params.get(f)
+                    if isinstance(ty, sv.TOpt):
+                        ty = ty.t
+                    if isinstance(ty, sv.Ty):
+                        post_args[f] = sv.mk(ty, sv.uid(f"call.{f}"))
+                        for w in sv.wf(post_args[f]):
+                            path.assume(w)
+                    else:
+                        post_args[f] = self.havoc_like(argmap[f], f)
                 else:
                     path.heap_havoc(self, r, f, "call")
                     if r is not None:
@@ -710,6 +723,20 @@ class CallMixin:
                 return sv.NONE
             if attr == "copy":
                 return base
+            if attr == "pop":
+                key = args[0]
+                has = self.key_guarded(key, base.dom)
+                if len(args) == 1:
+                    self.safe(path, "key", has, node)
+                    r = self.dict_get(base, key)
+                    self.assign(lvalue, self.dict_del(base, key), path)
+                    return r
+                k = self.choose(path, [has, sv.Not(has)])
+                if k == 1:
+                    return args[1]
+                r = self.dict_get(base, key)
+                self.assign(lvalue, self.dict_del(base, key), path)
+                return r
         if isinstance(base, sv.SSet):
             if attr == "add":
                 self.assign(lvalue, self.set_add(base, args[0]), path)
